@@ -67,7 +67,13 @@ def check_cov(xs, ys):
     if len(xs) > 1 and not close(rc.sample_covar, want * len(xs) / (len(xs) - 1), sc):
         p.append(f"sample_covar {rc.sample_covar}")
     rcm = RunningCovarianceMatrix(2)
-    rcm.update_from_it(xs, ys)
+    j = len(xs) // 2
+    if j >= 1:
+        rcm.update_from_it(xs[:j], ys[:j])
+        m0 = rcm.covar_matrix                  # read between two chunks: the later reading must be of ALL samples
+        rcm.update_from_it(xs[j:], ys[j:])
+    else:
+        rcm.update_from_it(xs, ys)
     if rcm.count != len(xs):
         p.append(f"covariance matrix reports count {rcm.count} after {len(xs)} samples fed as one chunk")
     rcm2 = RunningCovarianceMatrix(2)
